@@ -767,6 +767,14 @@ class EvalError(Exception):
     pass
 
 
+RE_PY = {}     # SMT-LIB regex text -> python pattern (full match), for the reference evaluator
+
+
+def register_re(smt_text, py_pattern):
+    RE_PY[smt_text] = py_pattern
+    return smt_text
+
+
 def evaluate(t, env, funs=None, cache=None):
     """Evaluate term `t` with `env`: var name -> python value.  `funs`: name -> python
     callable for uninterpreted functions (their *real* interpretation)."""
@@ -839,6 +847,12 @@ def evaluate(t, env, funs=None, cache=None):
         r = ''.join(ev(a) for a in t.args)
     elif op in _EVAL:
         r = _EVAL[op](*[ev(a) for a in t.args])
+    elif op == 'str.in_re':
+        import re as _re
+        pat = RE_PY.get(t.args[1].val)
+        if pat is None:
+            raise EvalError('regex without python counterpart')
+        r = _re.fullmatch(pat, ev(t.args[0]), _re.S) is not None
     elif op == 'select':
         a = ev(t.args[0])
         r = a.get(ev(t.args[1]), a.get('default'))
